@@ -144,20 +144,34 @@ def domains(src, level='program'):
 
 APP_PATTERNS = ['app', 'appdb', 'app.*01', r'db\d+', 'zzz', 'a']
 PRG_PATTERNS = ['prog', 'prog_\\d', 'g_0', 'nothing']
+# thorough tier: more names, captures that start at different offsets, anchors, alternations, permuted documents
+APP_PATTERNS_T = APP_PATTERNS + ['^app', r'\d\d$', 'db|app', 'pdb0', 'web_', 'server']
+PRG_PATTERNS_T = PRG_PATTERNS + ['^prog_', r'_\d+$', 'rog|og_01', 'worker_', '^zeta']
+APP_NAMES_T = ['appdb01', 'web_server', 'a']
+PRG_NAMES_T = ['prog_01', 'zeta_worker_01']
 
 
 @rigged
-def precedence(src):
+def precedence(src, wide=False):
     """H18b: an exact name beats any pattern; among patterns the longest match wins (real get_application_element /
     get_program_element / get_best_pattern, real re)"""
     import supvisors.sparser as SP
     core = Core(1, 0)
     numbers = _Numbers()
-    app_name, prg_name = 'appdb01', 'prog_01'
+    if wide:
+        app_name = src.pick('application_name', APP_NAMES_T)
+        prg_name = src.pick('program_name', PRG_NAMES_T)
+        apool, ppool = APP_PATTERNS_T, PRG_PATTERNS_T
+        # ordered selections: the order of the elements in the document must not matter
+        pats = src.pick('application_patterns', [c for k in (0, 1, 2, 3) for c in itertools.permutations(apool, k)])
+        ppats = src.pick('program_patterns', [c for k in (0, 1, 2) for c in itertools.permutations(ppool, k)])
+    else:
+        app_name, prg_name = 'appdb01', 'prog_01'
+        pats = src.pick('application_patterns', [c for k in (0, 1, 2, 3)
+                                                 for c in itertools.combinations(APP_PATTERNS, k)])
+        ppats = src.pick('program_patterns', [c for k in (0, 1, 2) for c in itertools.combinations(PRG_PATTERNS, k)])
     exact_app = src.pick_flag('exact_application')
-    pats = src.pick('application_patterns', [c for k in (0, 1, 2, 3) for c in itertools.combinations(APP_PATTERNS, k)])
     exact_prg = src.pick_flag('exact_program')
-    ppats = src.pick('program_patterns', [c for k in (0, 1, 2) for c in itertools.combinations(PRG_PATTERNS, k)])
     src.assume(exact_app or pats)
 
     def programs(marker):
@@ -503,6 +517,9 @@ HARNESSES = [
             reach=('loaded',), timeout=(60, 300), doc='application value domains / defaults'),
     Harness('H18b', precedence, quick={}, thorough={}, reach=('resolved',), timeout=(100, 300),
             doc='exact name vs patterns, longest match'),
+    Harness('H18b-wide', precedence, quick=None, thorough={'wide': True}, reach=('resolved',), timeout=(0, 900),
+            doc='3 x 2 names, ordered selections of <=3 of 12 application and <=2 of 9 program patterns (anchors, '
+                'alternations, captures at different offsets)'),
     Harness('H18c', models, quick={}, thorough={}, reach=('resolved',), timeout=(100, 300),
             doc='model reference graphs incl. cycles'),
     Harness('H18d', identifiers, quick={}, thorough={}, reach=('loaded',), timeout=(100, 300),
